@@ -35,6 +35,9 @@ INPUTS = {
     "once": cont(("a", [(0, 2, "x"), (3, 4, "x")]), ("b", [(0, 2, "x"), (3, 5, "rare")])),
     "three": cont(("a", [(0, 2, "x")]), ("b", [(1, 3, "y"), (6, 7, "y")]), ("c", [(0, 3, "x"), (6, 8, "y")])),
     "single": cont(("ref", [(0, 4, "x"), (6, 9, "y"), (11, 12, "x")])),
+    # unlabelled units: several entry points refuse them (statistics over categories, category-based dissimilarities)
+    # - a refusal the caller catches must leave the continuum as it was
+    "unl3": cont(("a", [(0, 2, "x"), (3, 4, None)]), ("b", [(1, 3, "y")]), ("c", [(0, 3, None), (6, 8, "y")])),
     "long": cont(("a", [(i * 4, i * 4 + 2, "xy"[i % 2]) for i in range(9)]),
                  ("b", [(i * 4 + 0.5, i * 4 + 2.5, "xy"[i % 2]) for i in range(9)])),
 }
@@ -228,6 +231,33 @@ def entry_points(pa):
         lambda c, d: pa.Alignment(c.get_best_alignment(d).unitary_alignments[:-1] or [], continuum=c, check_validity=True),
         (Exception,)), True, False, False)
 
+    def gt_subsets(c):
+        anns = list(c.annotators)
+        return [anns[:1], anns[:2], anns[-1:], set(anns[1:])] if len(anns) >= 2 else [anns]
+
+    def sampler_init_gt(factory):
+        def call(c, d):
+            for gt in gt_subsets(c):
+                try:
+                    factory().init_sampling(c, ground_truth_annotators=gt)
+                except Exception:  # noqa - each refusal is caught by the caller, who goes on with the same continuum
+                    pass
+        return call
+
+    E["raises_stat_init_ground_truth_subsets"] = (raising(sampler_init_gt(pa.StatisticalContinuumSampler), (Exception,)),
+                                                  False, False, False)
+    E["raises_shuffle_init_ground_truth_subsets"] = (raising(sampler_init_gt(pa.ShuffleContinuumSampler), (Exception,)),
+                                                     False, False, False)
+
+    def gamma_gt_subsets(c, d):
+        for gt in gt_subsets(c):
+            for kw in ({}, {"soft": True}):
+                try:
+                    c.compute_gamma(d, n_samples=1, ground_truth_annotators=gt, **kw).gamma
+                except Exception:  # noqa
+                    pass
+    E["raises_gamma_ground_truth_subsets"] = (raising(gamma_gt_subsets, (Exception,)), True, False, False)
+
     @reg("handbuilt_alignment_foreign_label")
     def _(c, d):
         from pyannote.core import Segment
@@ -350,6 +380,13 @@ def run_case(pa, E, iname, recipe, ename, mutation):
     try:
         derived = fn(c, d)
     except Exception as e:  # noqa
+        # the entry point refused this input: whatever it did before refusing, the input is as it was
+        df = diff(before, snap_c(c), allow_window)
+        if df:
+            return [f"{ename} raised {type(e).__name__} and left its input continuum modified: {'; '.join(df)}"], 0
+        dd = diff(d_before, snap_d(d))
+        if dd:
+            return [f"{ename} raised {type(e).__name__} and left the dissimilarity modified: {'; '.join(dd)[:200]}"], 0
         return [f"HARNESS-SKIP {type(e).__name__}: {e}"], 0
     df = diff(before, snap_c(c), allow_window)
     if df:
@@ -424,6 +461,8 @@ def run(task):
                 if not uses_d and recipe is not DISSIMS[0]:
                     continue
                 for mutation in (None,) + MUTATIONS:
+                    if iname == "unl3" and mutation and mutation.startswith("cst_"):
+                        continue  # the shuffling tool's perturbations are defined for labelled units
                     probs, nd = run_case(pa, E, iname, recipe, ename, mutation)
                     res["evaluations"] += 1
                     res["transitions"] += 1 + (nd + 1 if mutation else 0)
